@@ -275,7 +275,7 @@ def run(tier, seed):
     for name in (["ParamsEd25519"] if quick else T.SHIPPED):
         for side in "ABS":
             tasks.append(("shipped-boundary", (name, side)))
-    tasks.sort(key=lambda t: -(T.get(t[1][0]).ref.esize * (30 if t[0].startswith("shipped") else T.get(t[1][0]).q)))
+    tasks.sort(key=lambda t: -(T.hint(t[1][0]).ref.esize * (30 if t[0].startswith("shipped") else T.hint(t[1][0]).q)))
     core.pmerge(_dispatch, tasks, acc)
     _default_path(acc)
     return acc
